@@ -38,7 +38,12 @@ type seqCheck struct {
 	concBoundT int
 }
 
+// seqSets maps a property id to its K1 check, so that a recorded operation sequence can be
+// re-executed without the explorer (ReplaySeq).
+var seqSets = map[string]seqCheck{}
+
 func registerSeq(sc seqCheck) {
+	seqSets[sc.id] = sc
 	if sc.conc != nil {
 		concSets[sc.id] = sc.conc
 	}
